@@ -36,14 +36,14 @@ def main(run: Run):
             [("tie", o) for o in (["000", "001"] if thorough else ["000"])]
     for pool, o in pools:
         cfg = "MCBestPath_%s_%s.cfg" % (pool, o)
-        medvals = "{-1, 5, 10}" if thorough and pool == "med" and o == "000" else "{5, 10}"
+        medvals = "MedValsFull" if thorough and pool == "med" and o == "000" else "MedValsTwo"
         v.write_cfg(run.sc, cfg, """SPECIFICATION Spec
 CONSTANTS
   Sources <- AllSources
   SrcInfo <- SrcTable
   Opt <- Opt%s
   Pool = "%s"
-  MedVals = %s
+  MedVals <- %s
   TsVals = {1, 2}
   StaleVals = %s
 INVARIANTS
